@@ -385,19 +385,24 @@ Theorem corrse_of_cov_from_corrse_R : forall (n : nat) (corr : Mat) (sd : nat ->
 Proof. exact corrse_from_cov_roundtrip. Qed.
 
 (* ---- .lst: the fixed-format facts of results_file.py (C20/Lst.v) --------------------------------------------------
-   parse_render_lst_partial: for every well-formed written block (any table number, method, outcome
-   SUCCESSFUL / TERMINATED (+ ROUNDING ERRORS | MAX EVALUATIONS) / OPTIMIZATION WAS COMPLETED, near-boundary line,
-   any digit strings for the function evaluations, significant digits and estimation time, every covariance line)
-   the rows between #TERM: and #TERE: are read back as exactly the written termination facts, and the rows after
-   #TERE: as the written covariance status and estimation time.  "partial": the tag state machine that cuts the
-   file into these rows (tag_items / table_blocks) is modelled and tied by the correspondence and shown on examples
-   (Examples.ex_lst_file), but not proved for all files. *)
-From PV Require Import C20.Lst C20.LstProofs.
+   parse_render_lst: for EVERY well-formed rendered results file — a supported dotted NONMEM version, any number of
+   table blocks, each with any table number, method, outcome SUCCESSFUL / TERMINATED (+ ROUNDING ERRORS | MAX
+   EVALUATIONS) / OPTIMIZATION WAS COMPLETED, near-boundary line, any digit strings for function evaluations,
+   significant digits and estimation time, every covariance line — and for every list of table numbers asked for,
+   the reader (binary line splitting, version gate, the #TBLN/#METH/#TERM/#TERE/#OBJV tag state machine, table_blocks,
+   estimation_status / covariance_status) reports exactly the written facts of the LAST block with that number, and
+   "not found" for the others.  The two row-level statements it rests on are kept as theorems of their own. *)
+From PV Require Import C20.Lst C20.LstProofs C20.LstFile.
 
-Theorem parse_render_lst_partial_term : forall b : wblock,
+Theorem parse_render_lst : forall (v : text) (bs : list wblock) (numbers : list N),
+    version_ok v = true -> forallb wblock_ok bs = true ->
+    read_lst (render_lst v bs) numbers = LstOk v (map (fun n => (n, expected_facts bs n)) numbers).
+Proof. exact parse_render_lst_lemma. Qed.
+
+Theorem parse_render_lst_term : forall b : wblock,
     wblock_ok b = true -> parse_termination (render_term_rows b) = term_of_wblock b.
 Proof. exact parse_termination_render_lemma. Qed.
 
-Theorem parse_render_lst_partial_tere : forall b : wblock,
+Theorem parse_render_lst_tere : forall b : wblock,
     wblock_ok b = true -> parse_tere (render_tere_rows b) = tere_of_wblock b.
 Proof. exact parse_tere_render_lemma. Qed.
